@@ -27,6 +27,7 @@ import FV.Model.Framed
 import FV.Proofs.Framed
 import FV.Model.NatsClient
 import FV.Proofs.NatsClient
+import FV.Generated.Locks
 
 namespace FV.C15
 open FV FV.Adapter FV.Monitor
@@ -417,5 +418,14 @@ example : (NatsClient.run NatsClient.init [.open, .connClose, .close, .close]).i
 
 example : attempts (handleClose (Base.policy ⟨2, 1, 4⟩) false [false, false, true]) = 2 := by decide
 example : sleeps (handleClose (Base.policy ⟨3, 1, 3⟩) false [false, false, true]) = [1, 2, 3] := by decide
+
+/-- **Lock discipline behind the model's atomic steps** (registry, adapter lifecycle lock, framed reader),
+decided by the kernel on facts REGENERATED from lib/go's source on every check (harness/locks →
+FV/Generated/Locks.lean): no function calls, while it holds one of these mutexes, anything that
+(transitively) acquires the same mutex, no lexical re-lock, and every path out of a function releases
+what the function locked — the part of "Open, Close and IsOpen never deadlock" that is a property of
+the source text rather than of a schedule. -/
+theorem c15_lock_discipline :
+    FV.Locks.ok [1, 2, 3] FV.Generated.Locks.mutexTags FV.Generated.Locks.facts = true := by decide +kernel
 
 end FV.C15
